@@ -165,6 +165,10 @@ class TabIntpCompuMethod(CompuMethod):
                 f"Internal value {physical_value!r} must be inside the range"
                 f" [{min(self.physical_points)}, {max(self.physical_points)}]", EncodeError)
 
+        if self.internal_type in (DataType.A_INT32, DataType.A_UINT32):
+            # round to the nearest integer instead of truncating
+            result = round(result)
+
         res = self.internal_type.make_from(result)
 
         return res
@@ -188,6 +192,10 @@ class TabIntpCompuMethod(CompuMethod):
                 f"Internal value {internal_value!r} must be inside the range"
                 f" [{min(self.internal_points)}, {max(self.internal_points)}]", DecodeError)
             return None
+
+        if self.physical_type in (DataType.A_INT32, DataType.A_UINT32):
+            # round to the nearest integer instead of truncating
+            result = round(result)
 
         res = self.physical_type.make_from(result)
 
